@@ -1,11 +1,169 @@
 /-
-  C19 — property theorems only (placeholder until the refinement proof lands).
+  C19 — Marshal order: the key sequence written by orderedProperties.MarshalJSON and by
+  encoding/json for map-valued keywords.  Property theorems only (helper lemmas: JSV/Proofs/MshSort.lean).
 -/
-import JSV.Model.Validate
+import JSV.Proofs.MshSort
 namespace JSV.C19
 open JSV Go
 
-theorem validateFuel_zero (env : VEnv) (stack : List NodeId) (i : GoVal) (s : NodeId) :
-    validateFuel env 0 stack i s = .fuel := rfl
+/-! ## slices.Sort on strings -/
+
+theorem sortStrings_perm (ks : List String) : (Go.sortStrings ks).Perm ks :=
+  Go.sortStrings_perm' ks
+
+theorem sortStrings_sorted (ks : List String) : (Go.sortStrings ks).Pairwise (· ≤ ·) :=
+  Go.sortStrings_sorted' ks
+
+theorem sortStrings_perm_invariant {ks1 ks2 : List String} :
+    ks1.Perm ks2 → Go.sortStrings ks1 = Go.sortStrings ks2 :=
+  Go.sortStrings_eq_of_perm
+
+/-! ## orderedProperties -/
+
+/-- the listed names come first, in PropertyOrder's order; then the remaining names in ascending order -/
+theorem orderedKeys_eq {α : Type} (props : List (String × α)) (order : List String) :
+    Go.orderedKeys props order =
+      order.filter (fun k => (Json.lookup k props).isSome) ++
+      Go.sortStrings ((props.map (·.1)).filter fun k =>
+        !(order.filter (fun k => (Json.lookup k props).isSome)).contains k) := by
+  rfl
+
+/-- first block: every element is listed in `order` and is a property; the block keeps `order`'s
+    order (it is a sublist of `order`) and it is a prefix of the emitted key sequence -/
+theorem orderedKeys_listed_prefix {α : Type} (props : List (String × α)) (order : List String) :
+    (∀ k, k ∈ order.filter (fun k => (Json.lookup k props).isSome) →
+        k ∈ order ∧ k ∈ props.map (·.1) ∧ (Json.lookup k props).isSome) ∧
+    (order.filter (fun k => (Json.lookup k props).isSome)).Sublist order ∧
+    order.filter (fun k => (Json.lookup k props).isSome) <+: Go.orderedKeys props order := by
+  refine ⟨?_, List.filter_sublist, ?_⟩
+  · intro k hk
+    have h := List.mem_filter.1 hk
+    exact ⟨h.1, Go.lookup_isSome_iff_mem_keys.1 h.2, h.2⟩
+  · rw [orderedKeys_eq]
+    exact List.prefix_append _ _
+
+/-- second block: ascending, every element is a property that `order` does not mention -/
+theorem orderedKeys_rest_sorted {α : Type} (props : List (String × α)) (order : List String) :
+    ∃ rest, Go.orderedKeys props order = order.filter (fun k => (Json.lookup k props).isSome) ++ rest ∧
+      rest.Pairwise (· ≤ ·) ∧
+      ∀ k, k ∈ rest → k ∉ order ∧ k ∈ props.map (·.1) := by
+  refine ⟨Go.sortStrings (Go.restKeys props order), rfl, Go.sortStrings_sorted' _, ?_⟩
+  intro k hk
+  have h := Go.mem_restKeys.1 ((Go.sortStrings_perm' _).mem_iff.1 hk)
+  exact ⟨h.2, h.1⟩
+
+/-- every property is written exactly once -/
+theorem orderedKeys_complete {α : Type} (props : List (String × α)) (order : List String)
+    (hp : (props.map (·.1)).Nodup) (ho : order.Nodup) :
+    (Go.orderedKeys props order).Perm (props.map (·.1)) :=
+  Go.orderedKeys_perm_keys hp ho
+
+/-- … hence, when the map has distinct keys (every Go map) and PropertyOrder has no duplicate
+    (basicChecks), no key is written twice -/
+theorem orderedKeys_nodup {α : Type} (props : List (String × α)) (order : List String)
+    (hp : (props.map (·.1)).Nodup) (ho : order.Nodup) : (Go.orderedKeys props order).Nodup :=
+  (orderedKeys_complete props order hp ho).nodup_iff.2 hp
+
+/-- names in PropertyOrder that are not properties have no effect -/
+theorem orderedKeys_ignores_absent {α : Type} (props : List (String × α)) (o1 o2 : List String) (x : String)
+    (hx : (Json.lookup x props).isNone) :
+    Go.orderedKeys props (o1 ++ x :: o2) = Go.orderedKeys props (o1 ++ o2) := by
+  have hx' : (Json.lookup x props).isSome = false := by
+    cases h : Json.lookup x props with
+    | none => rfl
+    | some v => rw [h] at hx; cases hx
+  have hl : (o1 ++ x :: o2).filter (fun k => (Json.lookup k props).isSome)
+      = (o1 ++ o2).filter (fun k => (Json.lookup k props).isSome) := by
+    rw [List.filter_append, List.filter_append, List.filter_cons, hx']
+    rfl
+  rw [orderedKeys_eq, orderedKeys_eq, hl]
+
+/-- the emitted key sequence is independent of Go's map iteration order -/
+theorem orderedKeys_map_order_invariant {α : Type} (props1 props2 : List (String × α)) (order : List String)
+    (hperm : props1.Perm props2) (hn : (props1.map (·.1)).Nodup) :
+    Go.orderedKeys props1 order = Go.orderedKeys props2 order :=
+  Go.orderedKeys_eq_of_perm hperm hn order
+
+/-! ## PropertyOrder with a repeated name is rejected (basicChecks) -/
+
+theorem dup_order_rejected (st : Store) (rec : Go.MRec) (id : NodeId) (n : Node)
+    (hn : st.get? id = some n) (hd : Go.hasDup (n.propertyOrder.getD []) = true) :
+    Go.marshalStep st rec id = .err := by
+  have hc : Go.marshalChecksOk n = false := by
+    simp only [Go.marshalChecksOk, Go.basicChecksOk, hd]
+    simp
+  unfold Go.marshalStep
+  rw [hn]
+  show (if (!Go.marshalChecksOk n) = true then Res.err else _) = Res.err
+  rw [if_pos (by rw [hc]; rfl)]
+
+/-- stated with `Nodup`: a successful marshal implies PropertyOrder is duplicate-free -/
+theorem marshal_ok_order_nodup (st : Store) (rec : Go.MRec) (id : NodeId) (n : Node) (j : Json)
+    (hn : st.get? id = some n) (h : Go.marshalStep st rec id = .ok j) :
+    (n.propertyOrder.getD []).Nodup := by
+  apply Classical.byContradiction
+  intro hnd
+  rw [dup_order_rejected st rec id n hn (Go.hasDup_iff.2 hnd)] at h
+  cases h
+
+/-! ## map-valued keywords ($defs, definitions, patternProperties, dependentSchemas, dependencies,
+    $vocabulary, dependentRequired, Extra, and every object inside enum / const / examples) -/
+
+theorem sortKV_perm {α : Type} (kvs : List (String × α)) : (Go.sortKV kvs).Perm kvs :=
+  Go.sortKV_perm kvs
+
+theorem sortKV_sorted {α : Type} (kvs : List (String × α)) :
+    (Go.sortKV kvs).Pairwise (fun a b => a.1 ≤ b.1) :=
+  Go.sortKV_sorted kvs
+
+/-- the emitted order of every map-valued keyword is independent of map iteration order -/
+theorem sortKV_perm_invariant {α : Type} (kvs1 kvs2 : List (String × α))
+    (hperm : kvs1.Perm kvs2) (hn : (kvs1.map (·.1)).Nodup) : Go.sortKV kvs1 = Go.sortKV kvs2 :=
+  Go.sortKV_eq_of_perm hperm hn
+
+/-- Marshal is a function of the store and the root: there is no other input (no iteration order,
+    no clock, no randomness) in the model, and the two theorems above say that the association-list
+    order standing for Go's map iteration order does not matter either. -/
+theorem marshal_deterministic (st : Store) (root : NodeId) (r1 r2 : Res Json)
+    (h1 : Go.marshal st root = r1) (h2 : Go.marshal st root = r2) : r1 = r2 := by
+  rw [← h1, ← h2]
+
+/-! ## The hypotheses are satisfiable on non-trivial data -/
+
+def exProps : List (String × Nat) := [("zeta", 1), ("alpha", 2), ("mid", 3), ("beta", 4)]
+def exProps' : List (String × Nat) := [("beta", 4), ("mid", 3), ("zeta", 1), ("alpha", 2)]
+def exOrder : List String := ["mid", "ghost", "zeta"]
+
+example : Go.orderedKeys exProps exOrder = ["mid", "zeta", "alpha", "beta"] := by decide
+example : Go.orderedKeys exProps' exOrder = ["mid", "zeta", "alpha", "beta"] := by decide
+example : (exProps.map (·.1)).Nodup := by decide
+example : exOrder.Nodup := by decide
+example : exProps.Perm exProps' := by decide
+/-- `orderedKeys_map_order_invariant` applied -/
+example : Go.orderedKeys exProps exOrder = Go.orderedKeys exProps' exOrder :=
+  orderedKeys_map_order_invariant exProps exProps' exOrder (by decide) (by decide)
+/-- `orderedKeys_complete` applied -/
+example : (Go.orderedKeys exProps exOrder).Perm ["zeta", "alpha", "mid", "beta"] :=
+  orderedKeys_complete exProps exOrder (by decide) (by decide)
+/-- `orderedKeys_ignores_absent` applied: "ghost" is not a property -/
+example : Go.orderedKeys exProps (["mid"] ++ "ghost" :: ["zeta"]) = Go.orderedKeys exProps (["mid"] ++ ["zeta"]) :=
+  orderedKeys_ignores_absent exProps ["mid"] ["zeta"] "ghost" (by decide)
+example : Go.sortStrings ["b", "a", "c", "a"] = ["a", "a", "b", "c"] := by decide
+example : Go.sortKV [("b", 1), ("a", 2), ("c", 3)] = [("a", 2), ("b", 1), ("c", 3)] := by decide
+
+/-- `dup_order_rejected` applied: PropertyOrder ["a","b","a"] -/
+example (rec : Go.MRec) :
+    Go.marshalStep #[{ properties := some [("a", 7), ("b", 8)], propertyOrder := some ["a", "b", "a"] }] rec 0 = .err :=
+  dup_order_rejected _ rec 0 _ rfl (by decide)
+
+/-- a complete marshal with PropertyOrder: listed keys first, the rest sorted -/
+example :
+    Go.marshal #[{ properties := some [("zeta", 1), ("alpha", 2), ("mid", 1), ("beta", 2)],
+                   propertyOrder := some ["mid", "ghost", "zeta"] },
+                 { type := "string" }, {}] 0
+      = .ok (.obj [("properties", .obj [("mid", .obj [("type", .str "string")]),
+                                         ("zeta", .obj [("type", .str "string")]),
+                                         ("alpha", .bool true), ("beta", .bool true)])]) := by
+  rfl
 
 end JSV.C19
